@@ -72,6 +72,10 @@ void Model::save(const std::string &path, bool with_stats) const {
     writer << kv.first;
     kv.second->save_inner(writer, with_stats);
   }
+  ofs.close();
+  if (ofs.fail()) {
+    PRIMITIV_THROW_ERROR("Could not write file: " << path);
+  }
 }
 
 void Model::add(const std::string &name, Parameter &param) {
